@@ -7,6 +7,11 @@ pub mod c04;
 pub mod c10;
 pub mod c11;
 pub mod c12;
+pub mod c13;
+pub mod c14;
+pub mod c15;
+pub mod c16;
+pub mod c17;
 
 pub fn replay_value(path: &str) -> serde_json::Value {
     let s = std::fs::read_to_string(path).unwrap_or_else(|e| {
@@ -63,9 +68,22 @@ pub fn dispatch(prop: &str, tier: Tier, replay: Option<String>) -> i32 {
         "C10" => c10::run(tier, replay),
         "C11" => c11::run(tier, replay),
         "C12" => c12::run(tier, replay),
+        "C13" => c13::run(tier, replay),
+        "C14" => c14::run(tier, replay),
+        "C15" => c15::run(tier, replay),
+        "C16" => c16::run(tier, replay),
+        "C17" => c17::run(tier, replay),
         _ => {
             eprintln!("unknown property {prop}");
             2
         },
+    }
+}
+
+/// Child-process entry points (sweeps that may abort the process).
+pub fn child(prop: &str, _tier: Tier, which: &str) -> i32 {
+    match (prop, which) {
+        ("C17", "hostile") => c17::child_hostile(),
+        _ => 2,
     }
 }
